@@ -145,6 +145,7 @@ AtS(n) == Step("attribute", NameT(n), <<>>)
 UsedAxes == Axes \ {"namespace"}
 Tests == IF Tier = "tiny" THEN {NameT("b"), AnyT, TypeT("node"), TypeT("text")}
          ELSE {NameT("a"), NameT("b"), NameT("x"), AnyT, TypeT("node"), TypeT("text"), TypeT("comment"), TypeT("pi")}
+              \cup (IF Tier = "thorough" THEN {[k |-> "pilit", target |-> Cp("p")], [k |-> "pilit", target |-> Cp("x")], NameT("p")} ELSE {})
 
 PredsSmall == { <<>>, <<NumL(1)>>, <<NumL(2)>>, <<Fn0("last")>> }
 PredsMore ==
@@ -237,6 +238,8 @@ Expand(s) ==
                         \cup { Bin(o, A, B) : o \in CmpOps, A \in ScalarPool, B \in Pool }
     [] s.fam = "fn" -> UNION { FnApps(P) : P \in Pool }
     [] s.fam = "ctx" -> { AbsP(<<Dos, Step("child", TypeT("node"), <<p>>)>>) : p \in CtxPreds }
+                        \cup { AbsP(<<Dos, Step(ax, [k |-> "pilit", target |-> Cp(t)], pr)>>) :
+                                 ax \in {"child", "following", "preceding-sibling", "self"}, t \in {"p", "x"}, pr \in {<<>>, <<NumL(1)>>} }
                         \cup { AbsP(<<Dos, Step("attribute", AnyT, <<p>>)>>) : p \in CtxPreds }
     [] s.fam = "ns" ->
          LET T == { [k |-> "name", pre |-> pr, loc |-> Cp(n)] : pr \in {<<>>, Cp("r"), Cp("p"), Cp("q")}, n \in {"b", "x", "c"} }
